@@ -281,6 +281,52 @@ def direction_flips(ck, tier):
                              f"rbasex: a {second} request right after a {first} one was answered with the other transform")
 
 
+def symmetry_axis_forms(ck, tier):
+    """the same symmetry request spelled as an int, a list or a tuple gets the same answer: in particular a quadrant mask that
+    leaves a quadrant without a defined value is refused whatever the spelling (repair F59: a one-element tuple skipped the test
+    and NaNs came back)"""
+    import abel
+    from abel.tools import symmetry
+    rng = np.random.default_rng(seed() + 2059)
+    forms = {"none": [None, [None], (None,)], "0": [0, [0], (0,)], "1": [1, [1], (1,)], "both": [(0, 1), [0, 1], (1, 0), [1, 0]]}
+    shapes = [(9, 9), (8, 11)] if tier == "quick" else [(9, 9), (8, 11), (11, 8), (10, 10), (5, 7)]
+    for shape in shapes:
+        im = rng.random(shape)
+        for uq in itertools.product((True, False), repeat=4):
+            for name, spellings in forms.items():
+                outs = []
+                for sa in spellings:
+                    ck.count(("S.sym-forms", name, type(sa).__name__, uq), suite="S.property")
+                    res = []
+                    for call in ("quadrants", "transform"):
+                        try:
+                            with warnings.catch_warnings(), contextlib.redirect_stdout(io.StringIO()):
+                                warnings.simplefilter("ignore")
+                                if call == "quadrants":
+                                    r = np.array(symmetry.get_image_quadrants(im, symmetry_axis=sa, use_quadrants=uq))
+                                else:
+                                    r = abel.Transform(im, method="hansenlaw", symmetry_axis=sa, use_quadrants=uq).transform
+                            res.append(r)
+                        except Exception as e:
+                            res.append("raise")
+                    outs.append(res)
+                for sa, res in zip(spellings[1:], outs[1:]):
+                    for call, a, b in zip(("get_image_quadrants", "Transform"), outs[0], res):
+                        same = (isinstance(a, str) and isinstance(b, str)) or \
+                               (not isinstance(a, str) and not isinstance(b, str) and a.shape == b.shape and np.array_equal(a, b, equal_nan=True))
+                        if not same:
+                            what = "returned a result" if isinstance(a, str) else "raised"
+                            ck.violation(dict(site=call, clause="symmetry-axis-spelling"),
+                                         dict(shape=list(shape), symmetry_axis=repr(sa), reference=repr(spellings[0]), use_quadrants=list(uq)),
+                                         f"{call}(symmetry_axis={sa!r}, use_quadrants={uq}) {what if isinstance(b, str) == isinstance(a, str) else ('raised' if isinstance(b, str) else 'returned a result')} "
+                                         f"although symmetry_axis={spellings[0]!r} {'raised' if isinstance(a, str) else 'returned a result'}"
+                                         + ("" if isinstance(a, str) or isinstance(b, str) else " (different values)"))
+                        elif not isinstance(b, str) and not np.all(np.isfinite(b)):
+                            ck.violation(dict(site=call, clause="undefined-quadrant-returned"),
+                                         dict(shape=list(shape), symmetry_axis=repr(sa), use_quadrants=list(uq)),
+                                         f"{call}(symmetry_axis={sa!r}, use_quadrants={uq}) returned non-finite values for a finite image")
+
+
 def run(tier):
     ck = Check("C20", tier)
     ck.cov["rule"] = ("request classes: entry point (abel.Transform | method function) x 10 methods + unknown names x "
@@ -403,6 +449,7 @@ def run(tier):
     ck.cov["explanation"] = ("the request-class table is finite and enumerated completely (section A-C); section D adds "
                              "seeded random interactions")
     direction_flips(ck, tier)
+    symmetry_axis_forms(ck, tier)
     from harness import rbxmachine
     rbxmachine.run_sessions(ck, tier)            # requests that raise, interleaved with valid ones: outcome and cache state vs the Lean machine
     return ck.finish()
